@@ -27,6 +27,8 @@ class Tables:
         self._cache = {}
         for name in ("KeyKeyMapping", "KeyNoteMapping", "key_transpose_order", "key_transpose_mapping"):
             if name not in mm.class_attrs:
+                if name == "key_transpose_mapping":
+                    continue                         # only an aid of transpose_key: what that function returns is evaluated anyway (VS-KEY)
                 raise AnalysisError(f"MusicMapping.{name} not found")
             self.nodes[name] = mm.class_attrs[name]
         if "circle_of_fifths_order" not in cof.class_attrs:
@@ -49,10 +51,10 @@ class Tables:
             return (ch[0], ch[1])
         if isinstance(e, ast.Call) and isinstance(e.func, ast.Name) and e.func.id in self.p.module_funcs and not e.keywords:
             # a table built by a small module-level function from literal rows: the function is run on them (same evaluator as VS)
-            args = [self.ev(a) for a in e.args]
+            args = [self._to_iv(self.ev(a)) for a in e.args]
             iv = IntEval.__new__(IntEval)
             iv.p, iv.t, iv.cof = self.p, self, []
-            out = iv.call(e.func.id, args)
+            out = self._from_iv(iv.call(e.func.id, args))
             if isinstance(out, dict):
                 return {self._h(k): v for k, v in out.items()}
             if isinstance(out, (list, tuple)):
@@ -100,6 +102,12 @@ class Tables:
 
     def module_constant(self, name: str):
         """value (evaluator form) of a module-level constant of the tables' module, or KeyError"""
+        if name in self.nodes and name not in self.__dict__.setdefault("_busy", set()):
+            self._busy.add(name)                     # a table of the class named in another table's expression (class-body scope)
+            try:
+                return self._to_iv(self.table(name))
+            finally:
+                self._busy.discard(name)
         mi = self.p.modules.get(self.file)
         for st in (mi.tree.body if mi is not None else []):
             if isinstance(st, ast.Assign) and len(st.targets) == 1 and isinstance(st.targets[0], ast.Name) and st.targets[0].id == name:
@@ -205,18 +213,26 @@ def check_tables(ctx: Ctx, rules=("NOTE", "SCALE", "ORDER", "MAP", "COF", "KKM")
                       message=f"Key.{kk[1]} is named {name} (pitch class {(letter + adj) % 12}) but its scale starts on {pcs[0]}",
                       file=file, node=t.nodes["KeyNoteMapping"])
     order = t.table("key_transpose_order")
-    mapping = t.table("key_transpose_mapping")
+    mapping = t.table("key_transpose_mapping") if "key_transpose_mapping" in t.nodes else None
     if "ORDER" in rules:
         ctx.check(len(order) == 12, "TAB-ORDER", "key_transpose_order has 12 entries", function=F,
                   construct="key_transpose_order does not have 12 entries", message=f"{len(order)} entries", file=file,
                   node=t.nodes["key_transpose_order"])
         for i, k in enumerate(order):
+            if not (isinstance(k, tuple) and len(k) == 2 and k[0] == "Key"):
+                ctx.violation("TAB-ORDER", f"key_transpose_order[{i}] is a key", function=F, construct=f"key_transpose_order[{i}] is not a key",
+                              message=f"entry {i} is {k!r}: a transposition that lands on pitch class {i} returns no key", file=file, node=t.nodes["key_transpose_order"])
+                continue
             ctx.check(tonic.get(k[1]) == i, "TAB-ORDER", f"key_transpose_order[{i}] has tonic {i}", function=F,
                       construct=f"key_transpose_order[{i}] is a key whose tonic is not {i}",
                       message=f"entry {i} is Key.{k[1]} with tonic {tonic.get(k[1])}: transposition by index arithmetic breaks",
                       file=file, node=t.nodes["key_transpose_order"])
-        missing = {("Key", k) for k in keys} - set(order)
-        ctx.check(set(mapping) == missing, "TAB-ORDER", "key_transpose_mapping covers exactly the keys missing from the order",
+        missing = {("Key", k) for k in keys} - {k for k in order if isinstance(k, tuple)}
+        if mapping is None:
+            mapping = {}
+            ctx.ok("TAB-ORDER", "no key_transpose_mapping table: enharmonic spellings are resolved by transpose_key itself (decided by VS-KEY)")
+        else:
+          ctx.check(set(mapping) == missing, "TAB-ORDER", "key_transpose_mapping covers exactly the keys missing from the order",
                   function=F, construct="key_transpose_mapping key set differs from the keys absent from key_transpose_order",
                   message=f"missing from order: {sorted(missing)}; mapped: {sorted(mapping)}", file=file,
                   node=t.nodes["key_transpose_mapping"])
@@ -439,15 +455,22 @@ class IntEval:
             if not isinstance(base, (dict, list)):
                 raise AnalysisError(f"value-set evaluator: store into `{short(s.targets[0].value)}`")
             base[tuple(k) if isinstance(k, list) else k] = self.ev(s.value, env)
-        elif isinstance(s, ast.For) and isinstance(s.target, ast.Tuple) and all(isinstance(x, ast.Name) for x in s.target.elts) and not s.orelse:
+        elif isinstance(s, ast.For) and isinstance(s.target, ast.Tuple) and not s.orelse \
+                and all(isinstance(x, (ast.Name, ast.Tuple)) for x in ast.walk(s.target) if isinstance(x, ast.expr) and not isinstance(x, ast.expr_context)):
             it = self.ev(s.iter, env)
             if not isinstance(it, (list, tuple)):
                 raise AnalysisError(f"value-set evaluator: loop over `{short(s.iter)}`")
-            for v in list(it)[:4096]:
-                if not isinstance(v, (list, tuple)) or len(v) != len(s.target.elts):
+
+            def bind(tg, v):
+                if isinstance(tg, ast.Name):
+                    env[tg.id] = v
+                    return
+                if not isinstance(v, (list, tuple)) or len(v) != len(tg.elts):
                     raise IntEval._Return(("VALUE-ERROR", "unpack"))
-                for nm, x in zip(s.target.elts, v):
-                    env[nm.id] = x
+                for t_, x in zip(tg.elts, v):
+                    bind(t_, x)
+            for v in list(it)[:4096]:
+                bind(s.target, v)
                 for x in s.body:
                     self.stmt(x, env)
         elif isinstance(s, ast.For) and isinstance(s.target, ast.Name) and not s.orelse:
@@ -492,6 +515,23 @@ class IntEval:
                     pass
                 return ("NAME-ERROR", e.id)     # the program itself would raise NameError / UnboundLocalError here
             return env[e.id]
+        if isinstance(e, ast.Subscript) and isinstance(e.slice, ast.Slice):
+            base = self.ev(e.value, env)
+            if isinstance(base, tuple) and base and isinstance(base[0], str) and base[0].endswith("-ERROR"):
+                return base
+            bounds = []
+            for b_ in (e.slice.lower, e.slice.upper, e.slice.step):
+                v_ = None if b_ is None else self.ev(b_, env)
+                if isinstance(v_, tuple) and v_ and isinstance(v_[0], str) and v_[0].endswith("-ERROR"):
+                    return v_
+                if v_ is not None and (not isinstance(v_, int) or isinstance(v_, bool)):
+                    return ("TYPE-ERROR", src(e))
+                bounds.append(v_)
+            if isinstance(base, (list, tuple)):
+                try:
+                    return base[slice(*bounds)]            # Python semantics: out-of-range bounds clamp
+                except ValueError:
+                    return ("VALUE-ERROR", src(e))
         if isinstance(e, ast.List):
             return [self.ev(x, env) for x in e.elts]
         if isinstance(e, ast.Tuple):
@@ -570,6 +610,13 @@ class IntEval:
             for x in (a, b):
                 if isinstance(x, tuple) and x and isinstance(x[0], str) and x[0].endswith("-ERROR"):
                     return x        # an exception would be raised here: propagate it as the result
+            if isinstance(e.op, ast.Add) and isinstance(a, list) and isinstance(b, list):
+                return a + b
+            if isinstance(e.op, ast.Mult) and isinstance(a, list) and isinstance(b, int) and not isinstance(b, bool) and 0 <= b <= 64:
+                return a * b
+            if isinstance(e.op, ast.Add) and isinstance(a, tuple) and isinstance(b, tuple) and not (a and isinstance(a[0], str) and a[0] in ("Note", "Key")) \
+                    and not (b and isinstance(b[0], str) and b[0] in ("Note", "Key")):
+                return a + b
             if not isinstance(a, (int, bool)) or not isinstance(b, (int, bool)):
                 return ("TYPE-ERROR", src(e))
             ops = {ast.Add: lambda: a + b, ast.Sub: lambda: a - b, ast.Mult: lambda: a * b, ast.Mod: lambda: a % b,
@@ -604,7 +651,7 @@ class IntEval:
         if isinstance(e, ast.Attribute) and e.attr == "value":
             v = self.ev(e.value, env)
             if isinstance(v, tuple) and v[0] == "Note":
-                return v[1]
+                return self.t.note[v[1]] if isinstance(v[1], str) else v[1]          # (a table read in place holds the member's name)
             if isinstance(v, tuple) and len(v) == 2 and v[0] in self.p.enums and v[0] != "Note" and v[1] in dict(self.p.enums[v[0]]):
                 return dict(self.p.enums[v[0]])[v[1]]           # the declared value of an enum member (`Key.C.value` is "C")
             if isinstance(v, tuple) and v and isinstance(v[0], str) and v[0].endswith("-ERROR"):
@@ -663,6 +710,22 @@ class IntEval:
                 if v in tab:
                     return tab.index(v)
                 return ("VALUE-ERROR", v)
+            if isinstance(e.func, ast.Attribute) and e.func.attr in ("items", "keys", "values") and not e.args and not e.keywords:
+                base = self.ev(e.func.value, env)
+                if isinstance(base, dict):
+                    return {"items": lambda: [(k, v) for k, v in base.items()], "keys": lambda: list(base.keys()), "values": lambda: list(base.values())}[e.func.attr]()
+            if isinstance(e.func, ast.Attribute) and e.func.attr == "get" and 1 <= len(e.args) <= 2 and not e.keywords:
+                base = self.ev(e.func.value, env)
+                if isinstance(base, dict):
+                    k = self.ev(e.args[0], env)
+                    if isinstance(k, tuple) and k and isinstance(k[0], str) and k[0].endswith("-ERROR"):
+                        return k
+                    try:
+                        if k in base:
+                            return base[k]
+                    except TypeError:
+                        return ("TYPE-ERROR", src(e))
+                    return self.ev(e.args[1], env) if len(e.args) == 2 else None
             if ch == ["len"] and len(e.args) == 1:
                 v = self.ev(e.args[0], env)
                 if isinstance(v, (list, tuple, dict)):
